@@ -29,9 +29,10 @@ def lean_stage(pid, P):
     # only they break (an edited guard, a construct the translators cannot parse, a harmless rewrite) the
     # first tie - the differential correspondence - decides: the check intensifies the search for a
     # failing input and raises a violation only if it finds one.
-    GEN = {"CollectionsC.Generated.Guards", "CollectionsC.Generated.Funcs"}
+    def is_gen(m):       # Generated/Guards.lean, Generated/Funcs.lean, Generated/Funcs<Container>.lean
+        return m == "CollectionsC.Generated.Guards" or m.startswith("CollectionsC.Generated.Funcs")
     def is_aux_module(m):
-        return m in GEN or bool(GEN & lean_deps(m, set()))
+        return is_gen(m) or any(is_gen(d) for d in lean_deps(m, set()))
     aux_files = [f for f in files if f.exists() and is_aux_module(".".join(f.relative_to(LEAN).with_suffix("").parts))]
     aux_theorems = set()
     for f in aux_files:
@@ -88,7 +89,8 @@ def lean_stage(pid, P):
         # a guard / a function of the C text could not be translated (tools/gen_guards.py, gen_funcs.py):
         # the theorems of the files that import the generated module are no longer tied to the code
         for f in files:
-            if not f.exists() or module not in lean_deps_file(f):
+            if not f.exists() or not any(d == module or (module.endswith(".Funcs") and d.startswith(module))
+                                          for d in lean_deps_file(f)):
                 continue
             txt = f.read_text()
             # `gen_x: <function or "struct tag"> (file): why` concerns the files that mention that name
@@ -137,6 +139,10 @@ def lean_deps(module, seen=None):
 
 def relevant(P, container, d):
     """is this difference a violation of the property being checked (L1/L2), or a fidelity break (L3)?"""
+    if d.kind in ("protocol", "crash") and d.layer == "L2":
+        return True      # the C side died or stopped speaking the line protocol: never filtered by a property's kinds
+    if d.layer == "L0":
+        return False     # machinery problems (unknown operation): reported as CHECK-ERROR, never as a violation
     f = P.get("relevant")
     if f:
         return f(container, d)
@@ -184,13 +190,21 @@ def known_findings_for(pid):
     for line in f.read_text().split("\n"):
         if not line.startswith("finding:"):
             continue
-        m = re.match(r"finding: property=(\S+) id=(\S+) container=(\S+) witness=(\S+) also=(\S*) what=(.*)$", line)
+        m = re.match(r"finding: property=(\S+) id=(\S+) container=(\S+) witness=(\S+) also=(\S*) (?:sig=(\S+) )?what=(.*)$", line)
         if not m:
             continue
         propsl = [m.group(1)] + [x for x in m.group(5).split(",") if x]
         if pid in propsl:
-            out.append(dict(id=m.group(2), container=m.group(3), witness=m.group(4).split(","), what=m.group(6)))
+            ws = m.group(4).split(",")
+            sigs = m.group(6).split("|") if m.group(6) else [None] * len(ws)
+            out.append(dict(id=m.group(2), container=m.group(3), witness=ws, sig=dict(zip(ws, sigs)), what=m.group(7)))
     return out
+
+
+def witness_signature(diffs):
+    """what fails on a known-finding witness, as a set of `kind@line` tokens (L1/L2 only): recorded in the `sig=` field of
+    the finding so that a DIFFERENT failure on the same witness is still reported"""
+    return sorted({f"{d.kind}@{d.line}" for d in diffs if d.layer in ("L1", "L2")})
 
 
 def growth_hook(container):
@@ -279,12 +293,68 @@ def trim_hook(container):
     return hook
 
 
+def pq_multiset_hook():
+    """pqueue, C side only: element IDENTITY, which the obs section (keys in pop order) cannot see under ties.
+    After a successful push x the buffer holds the old multiset plus x; after a successful pop the old multiset is the
+    new one plus the popped element; every other operation (and every failed one) leaves the multiset alone;
+    destroy_cb hands exactly the held elements to the callback."""
+    from collections import Counter
+
+    def items(txt, key):
+        m = re.search(rf"\b{key}=\[([^\]]*)\]", txt)
+        return None if not m else Counter(x for x in m.group(1).split(",") if x != "")
+
+    def hook(h, ops, c_lines):
+        out = []
+        prev = None
+        for i, op in enumerate(ops):
+            if i >= len(c_lines):
+                break
+            cs = vlib.sections(c_lines[i])
+            name = op.split()[0]
+            if name.startswith("new"):
+                prev = items(cs[1], "buf")
+                continue
+            if name == "destroy_cb":
+                got = items(cs[1], "cbraw")
+                if prev is not None and got is not None and got != prev:
+                    out.append(Diff("walker", h, i, op, f"destroy_cb handed {sorted(got.elements())} to the callback, the queue held {sorted(prev.elements())}", "L2"))
+                prev = None
+                continue
+            cur = items(cs[1], "buf")
+            if cur is None or prev is None:
+                prev = cur if cur is not None else prev
+                continue
+            ok_st = bool(re.search(r"\bst=0\b", cs[0]))
+            want = Counter(prev)
+            if ok_st and name == "push":
+                want[op.split()[1]] += 1
+            elif ok_st and name == "pop":
+                mo = re.search(r"\bout=(\S+)", cs[1])
+                if mo:
+                    want[mo.group(1)] -= 1
+                    want = +want if all(v >= 0 for v in want.values()) else Counter({"<popped element was not in the queue>": 1})
+                else:       # pop with a NULL out pointer: exactly one of the held elements is gone
+                    gone = Counter(prev)
+                    gone.subtract(cur)
+                    if sum(gone.values()) == 1 and all(v >= 0 for v in gone.values()):
+                        want = cur
+                    else:
+                        want = Counter({"<the old multiset minus one element>": 1})
+            if cur != want:
+                out.append(Diff("walker", h, i, op, f"element multiset {sorted(cur.elements())} after the operation, expected {sorted(want.elements())}", "L2"))
+            prev = cur
+        return out
+    return hook
+
+
 def run_container(P, pid, cspec, tier, seed):
     """all streams of one container; returns dict(stats, violations, fidelity, samples, problems)"""
     container = cspec["container"]
-    out = dict(container=container, stats=None, violations=[], fidelity=[], samples=[], problems=[])
+    out = dict(container=container, stats=None, violations=[], fidelity=[], samples=[], problems=[], no_verdict=[])
     if container not in gens.GENS:
         out["problems"].append(f"no generator for container {container}")
+        out["no_verdict"].append(f"no generator for container {container} (import failed or not registered)")
         return out
     g = gens.GENS[container]
     rng = random.Random(seed * 1000003 + int(pid[1:]) * 101 + sum(map(ord, container)))
@@ -299,8 +369,11 @@ def run_container(P, pid, cspec, tier, seed):
         runner.hooks.append(growth_hook(container))
     if pid == "C20" and container in ("array", "array_sized", "deque"):
         runner.hooks.append(trim_hook(container))
+    if container == "pqueue":
+        runner.hooks.append(pq_multiset_hook())
     focus = cspec.get("focus")
     batches = []
+    late = []        # the property-defining batches (refusal enumeration, pool-backed re-runs) go right after the corpus
     corp = [ops for name, ops in corpus_histories(container) if not name.startswith("defect_")]
     if corp and cspec.get("corpus", True):
         batches.append(("corpus", corp))
@@ -317,7 +390,7 @@ def run_container(P, pid, cspec, tier, seed):
         def with_mode(h, mode):
             return [h[0] + f" alloc={mode}"] + h[1:] if h and h[0].startswith("new") and "_default" not in h[0] else None
         pm = [x for h in rnd[: max(20, len(rnd) // 2)] for x in (with_mode(h, "spool"), with_mode(h, "dpool")) if x]
-        batches.append(("pool-backed", pm))
+        late.append(("pool-backed", pm))
     if cspec.get("faults", False):
         nb = cspec.get("fault_hist_quick", 25) if tier == "quick" else cspec.get("fault_hist_thorough", 150)
         base = g.random(rng, nb, tier, focus=focus or "fault")
@@ -326,7 +399,10 @@ def run_container(P, pid, cspec, tier, seed):
         fv = []
         for h in base:
             fv.extend(fault_variants(runner, h, 40 if tier == "quick" else 300, rng))
-        batches.append(("fault-enumeration", fv))
+        late.append(("fault-enumeration", fv))
+    batches = batches[:1] + late + batches[1:] if batches and batches[0][0] == "corpus" else late + batches
+    if not rnd:
+        out["no_verdict"].append(f"{container}: the generator produced no random histories")
     t_start = time.time()
     budget = cspec.get("budget_quick", 120) if tier == "quick" else cspec.get("budget_thorough", 900)
     truncated = []
@@ -344,6 +420,9 @@ def run_container(P, pid, cspec, tier, seed):
                 out["fidelity"].append((bname, container, chunk[0], [Diff("driver-failure", 0, 0, chunk[0][0], str(e)[:200], "L3")]))
                 break
             for h, diffs in res:
+                unk = [d for d in diffs if d.kind == "unknown-op"]
+                if unk and len(out["no_verdict"]) < 3:
+                    out["no_verdict"].append(f"{container}/{bname}: generated operation unknown to the harness: {unk[0].op!r}")
                 rel = [d for d in diffs if relevant(P, container, d)]
                 hard = [d for d in rel if d.layer in ("L1", "L2")]
                 soft = [d for d in rel if d.layer == "L3"]
@@ -433,6 +512,8 @@ def run_check(pid, tier, seed, replay=None):
                 r.hooks.append(growth_hook(container))
         if pid == "C20" and container in ("array", "array_sized", "deque"):
             r.hooks.append(trim_hook(container))
+        if container == "pqueue":
+            r.hooks.append(pq_multiset_hook())
         res = r.run([ops])
         bad = [d for _, ds in res for d in ds if relevant(P, container, d)]
         for d in bad:
@@ -451,6 +532,7 @@ def run_check(pid, tier, seed, replay=None):
         return vlib.driver_path(container).exists() and not (bad & set(lean["failed_all"]))
 
     violations, fidelity, stats, all_samples, known_lines = [], [], [], [], []
+    no_verdict = []      # reasons why this run cannot give a verdict (work that was not done): CHECK-ERROR, exit 2
     aux_notes = []
     todo = []
     for cspec in P["streams"]:
@@ -472,6 +554,9 @@ def run_check(pid, tier, seed, replay=None):
             stats.append(r["stats"])
         all_samples += r["samples"][:2]
         lean["problems"] += r["problems"]
+        no_verdict += r.get("no_verdict", [])
+    if not lean["theorems"]:
+        no_verdict.append("no theorems registered for this property")
     # ---- known-finding probes: replay each recorded witness; still failing -> KNOWN-FINDING line
     for kf in known_findings_for(pid):
         still = False
@@ -480,10 +565,19 @@ def run_check(pid, tier, seed, replay=None):
                 container, ops = vlib.read_replay(ROOT / w)
                 r = Runner(container, props.container_opts(container))
                 res = r.run([ops])
-                if any(d.layer in ("L1", "L2") for _, ds in res for d in ds):
+                wd = [d for _, ds in res for d in ds if d.layer in ("L1", "L2")]
+                got = witness_signature(wd)
+                want = kf["sig"].get(w)
+                if got and (want is None or set(got) <= set(want.split("+"))):
                     still = True
+                elif got:
+                    # the witness fails in a way the finding does not record: that is a new violation
+                    still = still or bool(set(got) & set(want.split("+")))
+                    new = [d for d in wd if f"{d.kind}@{d.line}" not in set(want.split("+"))]
+                    violations.append(("known-finding-witness", container, ops, new))
             except Exception as e:
                 lean["problems"].append(f"known-finding probe {kf['id']}: {str(e)[:200]}")
+                no_verdict.append(f"known-finding probe {kf['id']} did not run: {str(e)[:120]}")
         if still:
             line = f"KNOWN-FINDING: property={pid} {kf['id']} {kf['what']}"
             known_lines.append(line)
@@ -517,7 +611,11 @@ def run_check(pid, tier, seed, replay=None):
         report(container, small, sd)
     if not violations:
         for bname, container, ops, diffs in fidelity[:3]:
-            found = search_failing_input(P, pid, container, ops, diffs, rng, tier)
+            try:
+                found = search_failing_input(P, pid, container, ops, diffs, rng, tier)
+            except SearchDidNotRun as e:
+                found = None
+                lean["problems"].append(f"intensified search did not run: {e}")
             if found:
                 report(container, found[0], found[1])
                 continue
@@ -534,11 +632,25 @@ def run_check(pid, tier, seed, replay=None):
         if lean.get("aux_broken") and not lean["broken"] and not fidelity:
             # only the translation tie broke: intensified search; a violation only with a failing input
             found = None
-            for cspec in todo:
-                found = search_failing_input(P, pid, cspec["container"], None, [], rng, tier)
-                if found:
-                    report(cspec["container"], found[0], found[1])
-                    break
+            try:
+                for cspec in todo:
+                    found = search_failing_input(P, pid, cspec["container"], None, [], rng, tier)
+                    if found:
+                        report(cspec["container"], found[0], found[1])
+                        break
+            except SearchDidNotRun as e:
+                # no verdict from a search that did not run: the broken tie is reported as it stands
+                found = True
+                vlib.OUT.mkdir(parents=True, exist_ok=True)
+                nrep[0] += 1
+                path = vlib.OUT / f"{pid}-{nrep[0]:04d}.broken"
+                with open(path, "w") as f:
+                    f.write(f"# property={pid}: the translation tie no longer checks and the intensified search did not run ({e})\n")
+                    for t in lean["aux_broken"]:
+                        f.write(f"theorem {t}\n")
+                line = f"VIOLATION property={pid} replay={path} no-failing-input-found"
+                print(line, flush=True)
+                printed.append(line)
             if not found:
                 note = (f"NOTE property={pid}: the translation tie (theorems regenerated from the C text) no longer checks: "
                         + ", ".join(lean["aux_broken"][:6]) + (" …" if len(lean["aux_broken"]) > 6 else "")
@@ -547,11 +659,14 @@ def run_check(pid, tier, seed, replay=None):
                 aux_notes.append(note)
         if lean["broken"] and not fidelity:
             found = None
-            for cspec in todo:
-                found = search_failing_input(P, pid, cspec["container"], None, [], rng, tier)
-                if found:
-                    report(cspec["container"], found[0], found[1])
-                    break
+            try:
+                for cspec in todo:
+                    found = search_failing_input(P, pid, cspec["container"], None, [], rng, tier)
+                    if found:
+                        report(cspec["container"], found[0], found[1])
+                        break
+            except SearchDidNotRun as e:
+                lean["problems"].append(f"intensified search did not run: {e}")
             if not found:
                 vlib.OUT.mkdir(parents=True, exist_ok=True)
                 nrep[0] += 1
@@ -606,9 +721,23 @@ def run_check(pid, tier, seed, replay=None):
         wall_s=round(wall, 2), violations=len(printed),
     )
     vlib.EVID.mkdir(parents=True, exist_ok=True)
+    if no_verdict and not printed:
+        # part of the work this check exists for was not done (no generator, an empty stream, an operation the harness
+        # does not know, a probe that did not run): that is neither "held" nor "violated"
+        for nv in no_verdict[:5]:
+            print(f"CHECK-ERROR property={pid}: {nv}", flush=True)
+        try:
+            (vlib.EVID / f"{pid}.json").unlink()
+        except FileNotFoundError:
+            pass
+        return 2
     with open(vlib.EVID / f"{pid}.json", "w") as f:
         json.dump(ev, f, indent=1, default=str)
     return 1 if printed else 0
+
+
+class SearchDidNotRun(Exception):
+    """the intensified search itself failed (runner exception, driver time-out): nothing may be concluded from it"""
 
 
 def search_failing_input(P, pid, container, ops, diffs, rng, tier):
@@ -630,8 +759,8 @@ def search_failing_input(P, pid, container, ops, diffs, rng, tier):
     for lo in range(0, len(hs), 400):
         try:
             res = runner.run(hs[lo:lo + 400])
-        except Exception:
-            return None
+        except Exception as e:
+            raise SearchDidNotRun(f"{container}: {type(e).__name__}: {str(e)[:200]}")
         for h, ds in res:
             hard = [d for d in ds if d.layer in ("L1", "L2") and relevant(P, container, d)]
             if hard:
